@@ -178,6 +178,9 @@ func directLeafExt() func(string) (string, bool) {
 	}
 }
 
+// the C01 atoms plus a reference that differs from another one only in letter case
+var c06Atoms5 = []string{"MIT", "ISC", "LicenseRef-a", "DocumentRef-d:LicenseRef-a", "LicenseRef-A"}
+
 var c06Rich = append(append([]string{}, c01Rich...), "MIT", "Mit", "gpl-2.0+", "MIT+")
 
 func c06Run(c *Ctx) {
@@ -231,11 +234,11 @@ func c06Run(c *Ctx) {
 	if c.Thorough() {
 		N = 5
 	}
-	c.Bound("S1", map[string]any{"atoms": c01Atoms4, "max_leaves": N})
-	trees := TreesUpTo(N, len(c01Atoms4))
+	c.Bound("S1", map[string]any{"atoms": c06Atoms5, "max_leaves": N})
+	trees := TreesUpTo(N, len(c06Atoms5))
 	for n := 1; n <= N; n++ {
 		for _, t := range trees[n] {
-			if !treeCase(t, c01Atoms4) {
+			if !treeCase(t, c06Atoms5) {
 				return
 			}
 		}
